@@ -28,7 +28,7 @@ ASSUMPTIONS = ["exponents with denominator <= 10 (Fraction.limit_denominator(10)
                "there); binary64 exponents p/q are read back as exact fractions",
                "no compound-unit definitions active (those are C18)"]
 TRUSTED = ["modelled not verified: str.format, Fraction.limit_denominator, numpy object arrays"]
-LEVEL_TEXT = "proof"
+LEVEL_TEXT = ('Lean 4 theorem C13_roundtrip: for every exponent map (any number of well-formed symbols, any non-zero rational exponents) and both styles, the string the model printer writes (incl. the 1/ numerator, bracketed denominators and ^(p/q) powers) is accepted by the model parser and means the same exponents; built on the C12 theorems. Tied to the code by the translator pins and a differential run (exhaustive 111 392 maps x 2 styles in the thorough tier, float power chains, assignment and array edits).')
 LEVEL_NOTE = ("round trip proved for the Lean printer/parser for all exponent maps (any size, any "
               "non-zero rational exponents, both styles); tied to the code by the differential run")
 TECHNIQUE = "Lean 4 theorems over an exact model of printer and parser"
